@@ -65,7 +65,8 @@ SPEC = {
              "Non-trivial = mutation (or, for TestValid, a given key) at depth >= 2, a placeholder in a non-string field, a pool "
              "without the discard_overflow key, a scenario-file placeholder in a non-string position (int, bool, *string, "
              "interface{}); distinct = hash of the case."),
-    "floors": {
+    "floors": {"TestDiscardOverflowDefault/discard_overflow:given_by_placeholder_false": 0.08,
+               
         "TestValid/given_depth_ge_2": 0.4, "TestValid/pools_gt_1": 0.1, "TestValid/list_composite": 0.2, "TestValid/null_valued_key": 0.1,
         "TestMutations/kind:unknown_key": 0.25, "TestMutations/kind:wrong_type": 0.15, "TestMutations/kind:constraint": 0.05,
         "TestMutations/kind:missing": 0.05, "TestMutations/kind:bad_type": 0.05, "TestMutations/op:rename": 0.01,
